@@ -5,6 +5,7 @@ import (
 	"fmt"
 	"sort"
 
+	corestore "cosmossdk.io/core/store"
 	"github.com/cosmos/iavl"
 
 	"verif/internal/model"
@@ -130,6 +131,34 @@ func (e *Env) CheckReads(t Reader, snap model.Snap, where string, probes [][]byt
 	}
 	if !sameSeq(gotK, gotV, keys, snap) {
 		e.bad("reads|"+where+"|iterate", "Iterate yielded %q, model has %q", pairsStr(gotK, gotV), snapStr(snap))
+	}
+	// ordered iteration in both directions through the Iterator interface
+	if it, ok := t.(interface {
+		Iterator(start, end []byte, ascending bool) (corestore.Iterator, error)
+	}); ok {
+		for _, asc := range []bool{true, false} {
+			itr, err := it.Iterator(nil, nil, asc)
+			n++
+			if err != nil {
+				e.bad("reads|"+where+"|iterator-error", "Iterator(nil,nil,%v): %v", asc, err)
+				continue
+			}
+			var ik, iv []string
+			for ; itr.Valid(); itr.Next() {
+				ik = append(ik, string(itr.Key()))
+				iv = append(iv, string(itr.Value()))
+			}
+			itr.Close()
+			if !asc {
+				for i, j := 0, len(ik)-1; i < j; i, j = i+1, j-1 {
+					ik[i], ik[j] = ik[j], ik[i]
+					iv[i], iv[j] = iv[j], iv[i]
+				}
+			}
+			if !sameSeq(ik, iv, keys, snap) {
+				e.bad("reads|"+where+"|iterator", "Iterator(nil,nil,ascending=%v) yielded %q, model has %q", asc, pairsStr(ik, iv), snapStr(snap))
+			}
+		}
 	}
 	e.C.Obs("reads", n)
 	return n
